@@ -8,7 +8,7 @@ from vlib.runner import derive_seed
 
 PROPERTY = "C07"
 LEVEL = "exploration"
-BOUNDS = {"quick": dict(depth=11, sends=3, breaks=2, kinds=["eof"]), "thorough": dict(depth=13, sends=3, breaks=3, kinds=["eof", "reset", "oserror", "drain"])}
+BOUNDS = {"quick": dict(depth=10, sends=3, breaks=2, kinds=["eof"]), "thorough": dict(depth=13, sends=3, breaks=3, kinds=["eof", "reset", "oserror", "drain"])}
 WALK = {"quick": 60, "thorough": 200}
 
 
@@ -18,7 +18,7 @@ def RULE(tier):
         "Two real endpoints (AsyncFIXClient and AsyncFIXDummyServer subclasses that only record callbacks and send Logon from "
         "on_connect, each with its own journal) joined by a simulated link whose frames are delivered one at a time by the "
         "harness. Actions: application send on either side (unique payload; accepted iff send_msg returns), deliver the next "
-        "in-flight frame in either direction, break the connection (everything in flight lost; each end sees EOF / "
+        "in-flight frame in either direction (or all in-flight frames of one direction coalesced into one read), break the connection (everything in flight lost; each end sees EOF / "
         "ConnectionResetError on read / OSError on read / a failing drain), reconnect (real connect() / _handle_accept() over "
         f"fresh streams + Logon). Bounded-exhaustive DFS over all action sequences up to depth {b['depth']} with <= {b['sends']} sends "
         f"and <= {b['breaks']} breaks of kinds {b['kinds']} (each sequence re-executed from scratch, deduplicated by a hash of both "
@@ -46,6 +46,8 @@ def enabled(d, budget):
     for frm in ("c", "s"):
         if d.can_deliver(frm):
             acts.append(("deliver", frm))
+            if len([x for x in d.fifo(frm) if not isinstance(x, bytes) or True]) >= 2 and isinstance(d.fifo(frm)[0], bytes) and isinstance(d.fifo(frm)[1], bytes):
+                acts.append(("deliver_all", frm))
     if d.link_alive() and budget["breaks"] > 0:
         for k in budget["kinds"]:
             acts.append(("break", k))
@@ -61,6 +63,9 @@ def apply(d, a, flags):
         return r
     if a[0] == "deliver":
         d.deliver(a[1])
+    elif a[0] == "deliver_all":
+        d.deliver_all(a[1])
+        flags.add("coalesced-read")
     elif a[0] == "break":
         inflight = len([x for x in d.fifo("c")]) + len([x for x in d.fifo("s")])
         if inflight and (d.accepted["c"] or d.accepted["s"]):
@@ -182,8 +187,8 @@ def run_walk(acc, steps):
         for choice, kind in steps:
             acts = enabled(d, {"sends": 99, "breaks": 99, "kinds": [kind]})
             # bias: a break is often followed by reconnect; deliveries are frequent
-            cat = ["send", "deliver", "deliver", "break", "reconnect", "send", "deliver", "any"][choice % 8]
-            pool = [a for a in acts if a[0] == cat] or ([a for a in acts if a[0] == "reconnect"] if choice % 3 == 0 else []) or acts
+            cat = ["send", "deliver", "deliver_all", "break", "reconnect", "send", "deliver", "any"][choice % 8]
+            pool = [a for a in acts if a[0] == cat] or ([a for a in acts if a[0] == "deliver"] if cat == "deliver_all" else []) or ([a for a in acts if a[0] == "reconnect"] if choice % 3 == 0 else []) or acts
             if not pool:
                 break
             a = pool[(choice // 8) % len(pool)]
